@@ -172,7 +172,19 @@ def build(cs, tier):
         from harness.props import c11
         bop = c11.boot_file_op(h.gen, rng, h.sess.model, 'noemul')
         if h.apply(bop).ok:
-            h.apply({'op': 'add_eltorito', 'bootfile_path': bop['iso_path']})
+            et = {'op': 'add_eltorito', 'bootfile_path': bop['iso_path']}
+            reuse_cat = cfg.joliet and rng.random() < 0.4
+            if reuse_cat:
+                # the catalog gets a Joliet name; that name is unlinked and given to a new file
+                # before El Torito is removed again (the new file must stay)
+                et['bootcatfile'] = '/BOOT.CAT;1' if cfg.level < 4 else '/boot.cat'
+                et['joliet_bootcatfile'] = '/boot.cat'
+                if cfg.rr:
+                    et['rr_bootcatname'] = 'boot.cat'
+            h.apply(et)
+            if reuse_cat and h.sess.model.boot is not None:
+                if h.apply({'op': 'rm_hard_link', 'joliet_path': '/boot.cat'}).ok:
+                    h.apply({'op': 'add_fp', 'cid': h.gen.new_cid(), 'length': rng.choice([5, 2048]), 'joliet_path': '/boot.cat'})
             h.extend(rng.choice([2, 6]))
             if rng.random() < 0.4:
                 # hide the boot file completely: El Torito now holds the last reference
